@@ -223,3 +223,20 @@ PROPS["C13"] = {
                   "tiers": {"quick": T(150, 4, timeout=600), "thorough": T(5000, 8, timeout=3400)}},
     },
 }
+
+PROPS["C06"] = {
+    "level": "exploration",
+    "technique": "property testing of reply-shape predicates computed from the client's raw packet, over generated byte-level queries x upstream answers (oversized, signed, foreign EDNS options) x transports x config, through the real default chain; plus real loopback UDP/TCP listeners for the header-screen rules",
+    "level_text": ("Every reply produced by generated histories on the real default chain is judged against predicates computed from the client's own raw packet: QR, ID echo (0 on the DoQ-style entry), opcode echo, question echo unless a bare-header rejection, no OPT without a query OPT, no RRSIG/NSEC/NSEC3 without DO (RRSIG questions excepted), AD clear for CD or (no DO and no AD) clients, reply options limited to cookie-against-client-cookie / NSID-if-requested-and-configured / keepalive-if-stream-and-sent / EDE / padding-if-sent and never ECS or anything foreign, and the UDP size-or-bare-TC rule. "
+                   "Queries are byte-level (all flags, opcodes, classes, OPT versions, malformed and duplicate options, count edits, truncations); upstream answers are oversized, carry additional records, signatures and foreign OPT options; ingress is wire-born, decoded, and the decoded ServeMsg entry DoH/DoQ use; cookie secret, NSID and ECS policy are toggled. "
+                   "A second unit drives the real UDP and TCP listeners on loopback for the header screen: responses unanswered, NOTIMP, FORMERR, BADVERS. Exploration."),
+    "level_note": "Trusted: miekg/dns for decoding. DoT, real DoH (HTTP framing) and real DoQ (quic-go streams) sockets are not opened: DoH/DoQ are represented by the decoded ServeMsg entry with their protocol-named writers, the DoQ ID rule by emulating doq.ResponseWriter's ID zeroing. 'No reply' on sockets is a 300-400 ms silence.",
+    "rule": ("evaluations = (query, reply) pairs. Non-trivial = at least one shaping rule was relevant (cookie, NSID, keepalive, EDE, truncation / near the UDP limit, BADVERS, bare rejection, response packet, non-query opcode, undecodable query); distinct = hash(rules fired, config, query shape)."),
+    "units": {
+        "shape": {"pkg": "./server", "run": "^TestVerifC06Shape$",
+                  "tiers": {"quick": T(800, 8, timeout=600), "thorough": T(30000, 12, timeout=3400)},
+                  "floors": {"C06.shape": {"cookie": 0.02, "nsid": 0.01, "ede": 0.01, "truncated": 0.003, "edns-version": 0.01}}},
+        "listeners": {"pkg": "./server", "run": "^TestVerifC06Listeners$",
+                      "tiers": {"quick": T(25, 2, timeout=600), "thorough": T(600, 4, timeout=3400)}},
+    },
+}
